@@ -173,22 +173,34 @@ Definition persist_then_loop (m : machine) (ev : string) : M (machine * result) 
   ok <- persist m ;;
   if negb ok then ret (m, mkResult false ErrStore) else event_loop loop_fuel m ev.
 
-(* SendEvent(event, ctx) *)
+(* the recursive SendEvent(Event_OnInvalid_Message, nil): acceptance check, UpdateData, loop *)
+Definition accepted_then_loop (m : machine) (ev : string) : M (machine * result) :=
+  match next_state t (m_cur m) ev with
+  | None => ret (m, mkResult false ErrRejected)
+  | Some _ => persist_then_loop m ev
+  end.
+
+(* SendEvent(event, ctx): an event the current state does not accept is rejected before
+   its context is validated, applied or stored *)
 Definition send_event (m : machine) (ev : string) (ctx : option wire_msg) : M (machine * result) :=
   if String.eqb ev Ev_Done then ret (m, mkResult true ErrNone) else
-  match ctx with
-  | Some c =>
-      if negb (validate_ctx (m_data m) c) then
-        (* recursive SendEvent(Event_OnInvalid_Message, nil) *)
-        persist_then_loop m Ev_Invalid
-      else
-        match apply_ctx (m_data m) c with
-        | None =>
-            ret (m, mkResult (String.eqb ev "Event_OnSwapOutStarted" ||
-                              String.eqb ev "Event_SwapInSender_OnSwapInRequested") ErrApply)
-        | Some d' => persist_then_loop (m <| m_data := d' |>) ev
-        end
-  | None => persist_then_loop m ev
+  match next_state t (m_cur m) ev with
+  | None => ret (m, mkResult false ErrRejected)
+  | Some _ =>
+    match ctx with
+    | Some c =>
+        if negb (validate_ctx (m_data m) c) then
+          (* recursive SendEvent(Event_OnInvalid_Message, nil) *)
+          accepted_then_loop m Ev_Invalid
+        else
+          match apply_ctx (m_data m) c with
+          | None =>
+              ret (m, mkResult (String.eqb ev "Event_OnSwapOutStarted" ||
+                                String.eqb ev "Event_SwapInSender_OnSwapInRequested") ErrApply)
+          | Some d' => persist_then_loop (m <| m_data := d' |>) ev
+          end
+    | None => persist_then_loop m ev
+    end
   end.
 
 (* Recover() *)
